@@ -159,7 +159,7 @@ def run(ctx: Check) -> int:
     # ---- (B) recorded engine traces + oracle
     cases = corpus_cases()
     n_corpus = len(cases)
-    cases += [tagrep.gen_case(rng, malformed=(i % 6 == 5)) for i in range(ctx.n(40, 1000))]
+    cases += [tagrep.gen_case(rng, malformed=(i % 6 == 5)) for i in range(ctx.n(30, 1000))]
     cases += [tagrep.gen_gap_case(rng, total=ctx.n(180, 400)) for _ in range(ctx.n(3, 40))]   # reports after long gaps
     cases += [tagrep.gen_lock_case(rng) for _ in range(ctx.n(3, 60))]
     results: dict[int, dict] = {}
